@@ -120,6 +120,26 @@ func (st *SplitTracker) AssignedSplits() []SourceSplitterShard {
 }
 
 // KnownSplits returns every tracked split, assigned or not.
+// Snapshot returns the known splits and the last assigned split ID as they
+// are at one moment. The splitter is checkpointed while its background
+// goroutine discovers and assigns shards: a shard that is assigned between two
+// separate reads would be missing from the list and already be behind the last
+// assigned ID, so that a restored splitter never discovers it again.
+func (st *SplitTracker) Snapshot() ([]SourceSplitterShard, string) {
+	st.mu.Lock()
+	defer st.mu.Unlock()
+
+	return slices.Clone(st.knownSplits.Values()), st.LastAssignedSplitID
+}
+
+// LastAssigned returns the last split ID that was marked assigned.
+func (st *SplitTracker) LastAssigned() string {
+	st.mu.Lock()
+	defer st.mu.Unlock()
+
+	return st.LastAssignedSplitID
+}
+
 func (st *SplitTracker) KnownSplits() []SourceSplitterShard {
 	st.mu.Lock()
 	defer st.mu.Unlock()
